@@ -229,6 +229,10 @@ def nsCompressFeature := s "http://jabber.org/features/compress"
 def modeFeature (tag : String) (ns : Str) : Field :=
   .child (declHead tag ns) [.flagChild (anyHead "required" ns)] .optional
 
+/-- the same shape without a namespace declaration, both elements looked up by tag alone -/
+def modeFeatureInh (tag : String) (ns : Str) : Field :=
+  .child (anyHead tag ns) [.flagChild (anyHead "required" ns)] .optional
+
 def streamFeaturesFieldsWith (sasl2 : List Field) : List Field := [
   modeFeature "bind" nsBind, modeFeature "session" nsSession, modeFeature "auth" nsAuthFeature,
   modeFeature "starttls" nsTls, modeFeature "sm" nsSm, modeFeature "csi" nsCsi, modeFeature "register" nsRegisterFeature,
@@ -472,6 +476,38 @@ def VCardPhone := unchecked (vcardHead "TEL") [
   vflag "HOME", vflag "WORK", vflag "VOICE", vflag "FAX", vflag "PAGER", vflag "MSG", vflag "CELL", vflag "VIDEO",
   vflag "BBS", vflag "MODEM", vflag "ISDN", vflag "PCS", vflag "PREF", .textChild (anyHead "NUMBER" []) .str false]
 
+/-! ### `QXmppMamQueryIq` payload (src/base/QXmppMamIq.cpp:130-158)
+
+The query id is WRITTEN as attribute `queryid` (XEP-0313) but READ from `queryId`: it never survives a round trip.
+`MamQueryIqCode` models the code as it is (field `attrRW`, not well-formed), `MamQueryIq` the repaired class
+(fixes/C01-mamquery-queryid.diff). -/
+
+def mamQueryFieldsWith (queryId : Field) : List Field := [
+  .attr (s "node") .str true, queryId, dataFormChild false,
+  .child rsmSet [rsmInt "max" (.optInt 31), rsmStr "after", rsmStr "before", rsmInt "index" (.optInt 31)] .wrapOmit]
+def MamQueryIq := iqPayload (declHead "query" nsMam) (mamQueryFieldsWith (.attr (s "queryid") .str true))
+def MamQueryIqCode := iqPayload (declHead "query" nsMam) (mamQueryFieldsWith (.attrRW (s "queryId") (s "queryid") .str true))
+
+/-! ### `QXmppPubSubSubscription` (src/base/QXmppPubSubSubscription.cpp:258-317), one schema per namespace
+
+WHAT `parse` reads depends on the namespace the `<subscription/>` element is in: in `…/pubsub` node, subid and the
+`<subscribe-options/>` child (absent = unavailable, present = available, with `<required/>` = required), in
+`…/pubsub#event` node, subid and `expiry`, in `…/pubsub#owner` only jid and state.  `toXml` writes whatever is set, without
+a namespace of its own.  One schema per context; an element that is in another namespace is outside the schema. -/
+
+def nsPubsubEvent := s "http://jabber.org/protocol/pubsub#event"
+def subscriptionStates : List Str := ["none", "pending", "subscribed", "unconfigured"].map s
+def subscriptionIn (ns : Str) (fields : List Field) : Schema :=
+  { head := { tag := s "subscription", ns := ns, decl := false, anyNs := false }, fields := fields, check := .unchecked, inh := ns }
+def PubSubSubscription := subscriptionIn nsPubsub [
+  .attr (s "jid") .str false, .attr (s "node") .str true, .attr (s "subscription") (.enum subscriptionStates) true,
+  .attr (s "subid") .str true, modeFeatureInh "subscribe-options" nsPubsub]
+def PubSubSubscriptionEvent := subscriptionIn nsPubsubEvent [
+  .attr (s "jid") .str false, .attr (s "node") .str true, .attr (s "subscription") (.enum subscriptionStates) true,
+  .attr (s "subid") .str true, .attr (s "expiry") .dateTime true]
+def PubSubSubscriptionOwner := subscriptionIn nsPubsubOwner [
+  .attr (s "jid") .str false, .attr (s "subscription") (.enum subscriptionStates) true]
+
 /-- every modelled class by the name the harness uses -/
 def all : List (String × Schema) := [
   ("SmEnable", SmEnable), ("SmEnabled", SmEnabled), ("SmResume", SmResume), ("SmResumed", SmResumed),
@@ -497,7 +533,10 @@ def all : List (String × Schema) := [
   ("IbbDataIq", IbbDataIq), ("HashUsed", HashUsed), ("MamResultIq", MamResultIq),
   ("RosterItem", RosterItem), ("RosterIq", RosterIq),
   ("DataForm", DataForm), ("MucOwnerIq", MucOwnerIq), ("DiscoInfoIq", DiscoInfoIq), ("DiscoItemsIq", DiscoItemsIq),
-  ("VCardAddress", VCardAddress), ("VCardEmail", VCardEmail), ("VCardPhone", VCardPhone)]
+  ("VCardAddress", VCardAddress), ("VCardEmail", VCardEmail), ("VCardPhone", VCardPhone),
+  ("MamQueryIq", MamQueryIqCode),
+  ("PubSubSubscription", PubSubSubscription), ("PubSubSubscriptionEvent", PubSubSubscriptionEvent),
+  ("PubSubSubscriptionOwner", PubSubSubscriptionOwner)]
 
 def find (name : String) : Option Schema := (all.find? (·.1 == name)).map (·.2)
 
